@@ -121,8 +121,10 @@ func resolveVocab(P *Program) *Vocab {
 	get(&v.AllocInode, "fstxn.(*FsTxn).AllocInode")
 	get(&v.GetInodeUnlocked, "fstxn.(*FsTxn).GetInodeUnlocked")
 	get(&v.OwnInum, "fstxn.(*FsTxn).OwnInum")
-	get(&v.errRet, "nfs.errRet")
-	get(&v.commitReply, "nfs.commitReply")
+	// conveniences of package nfs (abort-and-set-status, commit-and-set-status): a tree that writes them out in
+	// place is judged by what the handlers do; no rule depends on their existence
+	v.errRet = P.Func("nfs.errRet")
+	v.commitReply = P.Func("nfs.commitReply")
 	get(&v.lockInodes, "nfs.lockInodes")
 
 	get(&v.JrnlCommitWait, jrnlPath+"/jrnl.(*Op).CommitWait")
